@@ -84,16 +84,22 @@ def compare_ort(before: onnx.ModelProto, after: onnx.ModelProto, feeds_list, ran
     its outputs are compared — unless the generator built it so that the OUTPUT is deterministic
     (family misc_cse_random: 'are two independent draws different?')."""
     values = random_by_design or not termify.has_unseeded_random(before)
-    try:
-        outs_b = [ort_outputs(before, f) for f in feeds_list]
-    except Exception as e:
-        return {"status": "before_invalid", "error": str(e)[:300]}
+    # a feed the BEFORE graph cannot process (e.g. an empty batch through Reshape(…,-1)) says nothing
+    outs_b, usable, err = [], [], None
+    for k, f in enumerate(feeds_list):
+        try:
+            outs_b.append(ort_outputs(before, f))
+            usable.append(k)
+        except Exception as e:  # noqa: BLE001
+            err = str(e)[:300]
+    if not usable:
+        return {"status": "before_invalid", "error": err}
     try:
         onnx.checker.check_model(after, full_check=False)
-        outs_a = [ort_outputs(after, f) for f in feeds_list]
+        outs_a = [ort_outputs(after, feeds_list[k]) for k in usable]
     except Exception as e:
         return {"status": "after_invalid", "error": str(e)[:300]}
-    for k, (ob, oa) in enumerate(zip(outs_b, outs_a)):
+    for k, ob, oa in zip(usable, outs_b, outs_a):
         if len(ob) != len(oa):
             return {"status": "differ", "why": f"output count {len(ob)} vs {len(oa)}"}
         for j, (b, a) in enumerate(zip(ob, oa)):
@@ -179,8 +185,10 @@ def run(chk: Check) -> None:
         fam_count[desc["family"]] = fam_count.get(desc["family"], 0) + 1
         for g in desc.get("guards", []):
             guard_count[g] = guard_count.get(g, 0) + 1
-        feeds_list = [graphgen.make_feeds(model, rng, {"B": 3, "A": 2, "N": 3}),
-                      graphgen.make_feeds(model, rng, {"B": 5, "A": 5, "N": 5})]
+        feeds_list = [graphgen.make_feeds(model, rng, {"B": 3, "A": 2, "N": 3, "X": 4, "Y": 4}),
+                      graphgen.make_feeds(model, rng, {"B": 5, "A": 5, "N": 5, "X": 2, "Y": 2}),
+                      # an empty batch: symbolic extents may be 0 at run time
+                      graphgen.make_feeds(model, rng, {"B": 0, "A": 2, "N": 3, "X": 3, "Y": 5})]
         try:
             onnx.checker.check_model(model)
             ort_outputs(model, feeds_list[0])
